@@ -12,6 +12,7 @@ import (
 	"strings"
 	"sync"
 
+	"verif/internal/derx"
 	"verif/internal/keys"
 )
 
@@ -97,4 +98,14 @@ func pickKey(kind string, i int) *keys.Key {
 		return ks[i%len(ks)]
 	}
 	return keys.Pick(kind, i)
+}
+
+// spkiOf returns the DER SubjectPublicKeyInfo of a key; the shared pool carries none for DSA, so that one
+// is assembled here (RFC 3279 s2.3.2). nil when the key has no X.509 encoding (brainpool).
+func spkiOf(k *keys.Key) []byte {
+	if k.SPKI != nil || k.DSA == nil {
+		return k.SPKI
+	}
+	p := k.DSA.PublicKey
+	return derx.Seq(derx.Seq(derx.OID(1, 2, 840, 10040, 4, 1), derx.Seq(derx.Int(p.P), derx.Int(p.Q), derx.Int(p.G))), derx.BitString(derx.Int(p.Y), 0))
 }
